@@ -1103,7 +1103,10 @@ func checkC09(e *env) {
 			}
 		}
 	}
-	// addr: InsertPoint against the model
+	// addr: InsertPoint against the model; here also grids whose addresses exceed what a float64 quotient resolves (WebMercatorQuad 18 and 20,
+	// EuropeanETRS89_LAEAQuad 15: offsets up to 4e17 units)
+	wmA, laeaA := newReal("WebMercatorQuad", 20, false), newReal("EuropeanETRS89_LAEAQuad", 15, false)
+	grids = append(grids, og{gs: wmA, id: 18}, og{gs: wmA, id: 20}, og{gs: laeaA, id: 15})
 	for it := 0; it < e.n(20000, 400000); it++ {
 		o := grids[e.rng.Intn(len(grids))]
 		g := o.gs.gridFor(o.id)
@@ -1116,6 +1119,8 @@ func checkC09(e *env) {
 				return min + size*g.res - 1 + e.rng.Int63n(2*g.res)
 			case 2:
 				return min + e.rng.Int63n(size)*g.res
+			case 3: // a few units below a pixel edge, anywhere in the grid (far from the origin a float quotient rounds such a point up)
+				return min + (1+e.rng.Int63n(size-1))*g.res - 1 - e.rng.Int63n(64)
 			}
 			return min + e.rng.Int63n(size*g.res)
 		}
